@@ -22,6 +22,10 @@ Definition SIG_NO_RETURN := 7%N.
 Definition SIG_GOROUTINES := 8%N.
 Definition SIG_LISTENERS := 9%N.
 Definition SIG_DESCRIPTORS := 10%N.
+(* vnc: serve() goes on parsing update requests it has already buffered after the frame pusher
+   has given up, and waits for ever on the full 128-slot queue (scenario 5: SetPixelFormat
+   with true-colour = 0, then 140 update requests in one write) *)
+Definition SIG_VNC_QUEUE := 15%N.
 
 (* there is no model to disagree with; a history that is not as long as requested although
    every handler came back would be a harness problem *)
@@ -33,7 +37,8 @@ Definition case_sigs (k : case) : list N :=
   match last (map Some (w_obs k)) None with
   | None => [SIG_NO_RETURN]
   | Some o =>
-      if (2 <=? w_out o)%N then [SIG_NO_RETURN]
+      if (2 <=? w_out o)%N then
+        [if (w_out o =? 3)%N && (w_svc k =? 1)%N && (w_scenario k =? 5)%N then SIG_VNC_QUEUE else SIG_NO_RETURN]
       else (if w_gor o =? 0 then [] else [SIG_GOROUTINES]) ++
            (if w_lis o =? 0 then [] else [SIG_LISTENERS]) ++
            (if w_fds o - w_lis o =? 0 then [] else [SIG_DESCRIPTORS])
